@@ -175,3 +175,13 @@ Fixpoint render (ps : list piece) (arg : string) : option string :=
   | PQuote _ :: _ => None
   | POther _ :: _ => None
   end.
+
+(* regexp.Compile given as a finite table: pattern text -> AST (None = compile error; a text that
+   is not listed counts as a compile error) *)
+Definition ptab := list (string * option re).
+Fixpoint ptab_get (p : string) (t : ptab) : option re :=
+  match t with
+  | [] => None
+  | (k, r) :: t' => if String.eqb k p then r else ptab_get p t'
+  end.
+Definition parse_of (t : ptab) : string -> option re := fun p => ptab_get p t.
